@@ -84,6 +84,8 @@ func main() {
 		cmdGCheck(os.Args[2:])
 	case "hooktrace":
 		cmdHookTrace(os.Args[2:])
+	case "corpus2scen":
+		cmdCorpus2Scen(os.Args[2:])
 	case "play":
 		cmdPlay(os.Args[2:])
 	case "sweep16":
